@@ -173,6 +173,11 @@ func (c *countingRecorder) WriteHeader(code int) {
 func Serve(h http.Handler, q Req) Resp {
 	r, cancel := q.Build()
 	defer cancel()
+	return ServeRequest(h, r)
+}
+
+// ServeRequest runs the handler on a prepared request.
+func ServeRequest(h http.Handler, r *http.Request) Resp {
 	rec := &countingRecorder{ResponseRecorder: httptest.NewRecorder()}
 	var out Resp
 	func() {
